@@ -133,7 +133,11 @@ def scope (fields : List String) : Option String := do
 def isbinary : List String → Option String
   | [l, h] =>
     match Wire.nat? l, ofHex h with
-    | some level, some c => some (if P.binaryAsText level || !(isBinary P.S c) then "b scanned" else "b skipped")
+    | some level, some c =>
+      let sniffOk := P.binaryAsText level || !(isBinary P.S c)
+      let b := if sniffOk then "scanned" else "skipped"
+      let q := if sniffOk && (!P.simpleSkipsInvalidUtf8 || Utf8.valid c) then "planned" else "skipped"
+      some s!"b {b} q {q}"
     | _, _ => none
   | _ => none
 
